@@ -1,5 +1,6 @@
 import Bpmn.Driver.Util
 import Bpmn.Model.Value
+import Bpmn.Lemmas.Value
 import Bpmn.Gen.C16
 /-! Driver for C16: replays what the harness recorded of `schema.NewValue` / `ValueFrom` / `ValueFor`,
 the variable store, `$name.path` references and the engine-level round trip through the model
@@ -883,9 +884,11 @@ def checkEngine (cfg : Cfg) (lines : List String) (shared : Bool := false) : Cas
   return { st.r with nontrivial := tasks > 0 }
 
 def check (params lines : List String) : CaseResult :=
-  match currentCfg? with
-  | none => { bad := ["C16 facts could not be read from the source (Bpmn.Gen.C16)"] }
-  | some cfg =>
+  -- when a fact cannot be read (the construct it is read from has been rewritten) the obligation `C16Current` is already
+  -- broken; the histories are then judged against the configuration that SATISFIES the property (`Cfg.repaired`,
+  -- `Props/C16.repaired_ok`), so that a failing input is still found and reported with the broken obligation
+  let cfg := currentCfg?.getD Cfg.repaired
+  (fun (r : CaseResult) => if currentCfg?.isNone then { r with infos := "facts unreadable: judged against Cfg.repaired" :: r.infos } else r) <|
     match params with
     | "fn" :: _ => checkFn cfg lines
     | "store" :: _ => checkStore cfg lines
